@@ -236,10 +236,18 @@ func TestVerifBigIntBridge(t *testing.T) {
 					g2.GCD(&bx2, nil, a, a)
 					wg.GCD(wbx, nil, wx, wx)
 					check("GCD.x(a,a) "+xs, &bx2, norm(wbx))
+					// the same with heap-resident outputs (the receiver's own big.Int is handed to math/big)
+					g3, bx3, by3 := mk("7", true), mk("-9", true), mk("11", true)
+					g3.GCD(bx3, by3, a, a)
+					wg.GCD(wbx, wby, wx, wx)
+					check("GCD.x(a,a) heap "+xs, bx3, norm(wbx))
+					check("GCD.y(a,a) heap "+xs, by3, norm(wby))
+					check("GCD.z(a,a) heap "+xs, g3, norm(wg))
+					wg.GCD(wbx, nil, wx, wx)
 					var s2 BigInt
 					s2.SetInt64(-3)
 					check("SetMathBigInt(GCD x) "+xs, s2.SetMathBigInt(wbx), norm(wbx))
-					cases += 5
+					cases += 8
 				}
 				var n1, a1, s1 BigInt
 				check("Neg", n1.Neg(x), new(big.Int).Neg(wx))
